@@ -38,14 +38,14 @@ class Sched:
             while self.current != tid:
                 self.cv.wait(30)
 
-    def yield_point(self):
+    def yield_point(self, p: float = 0.5):
         tid = getattr(self.local, "tid", None)
-        if tid is None:
-            return
+        if tid is None or getattr(self.local, "held", 0):
+            return          # not a scheduled thread / inside the cache's critical section (the lock is not a yield point while held)
         with self.cv:
             self.points += 1
             if self.max_preemptions is None or self.switches < self.max_preemptions:
-                nxt = self.rng.choice(sorted(self.alive)) if self.rng.random() < 0.5 else tid
+                nxt = self.rng.choice(sorted(self.alive)) if self.rng.random() < p else tid
             else:
                 nxt = tid
             if nxt != tid:
@@ -71,9 +71,11 @@ class SchedLock:
     def __enter__(self):
         self.sched.yield_point()
         self.inner.acquire()
+        self.sched.local.held = getattr(self.sched.local, "held", 0) + 1
         return self
 
     def __exit__(self, *a):
+        self.sched.local.held -= 1
         self.inner.release()
         return False
 
@@ -95,13 +97,25 @@ def _threads_child(conn, plan, seed, mode):
     logging.disable(logging.CRITICAL)
     warnings.simplefilter("ignore")
     events = []
-    elock = threading.Lock()
+    elock = threading.RLock()
 
     def sink(ev):
         with elock:
             events.append(ev)
     un = idalloc.install(sink)
     from explorerscript.ssb_converting.decompiler.graph_building import graph_utils
+    # no module of the package is imported for the first time inside a scheduled thread (a thread descheduled while it holds
+    # an import lock would block the others outside the scheduler's control)
+    import importlib
+    import pkgutil
+    import explorerscript
+    for mi in pkgutil.walk_packages(explorerscript.__path__, "explorerscript."):
+        if ".pygments" in mi.name or ".cli" in mi.name or mi.name.endswith("__main__"):
+            continue
+        try:
+            importlib.import_module(mi.name)
+        except Exception:  # noqa
+            pass
     rng = random.Random(seed)
     sched = Sched(rng, max_preemptions=None if seed % 3 else 2)
     restore = []
@@ -125,10 +139,19 @@ def _threads_child(conn, plan, seed, mode):
         sys.setswitchinterval(1e-6)
     results = [[None] * len(p) for p in plan]
 
+    def prof(frame, event, arg):
+        # every call of a function of the package (not the generated parser) is a possible thread switch
+        if event == "call":
+            fn = frame.f_code.co_filename
+            if "/explorerscript/" in fn and "/antlr/" not in fn and not fn.endswith("_verif.py"):
+                sched.yield_point(0.04)
+
     def body(tid):
         sched.local.tid = tid if mode == "sched" else None
         if mode == "sched":
             sched.wait_turn(tid)
+            if seed % 2:
+                sys.setprofile(prof)
         try:
             for j, (kind, name) in enumerate(plan[tid]):
                 try:
@@ -137,6 +160,7 @@ def _threads_child(conn, plan, seed, mode):
                 except BaseException as ex:  # an exception in a thread is a violation of C12
                     results[tid][j] = {"digest": "raised", "status": "raised", "raised": f"{type(ex).__name__}: {ex}"[:200]}
         finally:
+            sys.setprofile(None)
             if mode == "sched":
                 sched.done(tid)
     ths = [threading.Thread(target=body, args=(t,), daemon=True) for t in range(len(plan))]
@@ -147,11 +171,16 @@ def _threads_child(conn, plan, seed, mode):
     for t in ths:
         t.join(50)
     stuck = any(t.is_alive() for t in ths)
+    where = []
+    if stuck:
+        import traceback
+        for th_id, fr in sys._current_frames().items():
+            where.append("".join(traceback.format_stack(fr)[-6:]))
     for cls, name, orig in restore:
         setattr(cls, name, orig)
     un()
     evs = [{"e": e[0], "g": int(e[1]) if len(e) > 1 else 0, "k": str(e[2]) if len(e) > 2 else ""} for e in events if e[0] != "free"]
-    conn.send({"results": results, "events": evs, "stuck": stuck, "switches": sched.switches, "points": sched.points})
+    conn.send({"results": results, "events": evs, "stuck": stuck, "where": where, "switches": sched.switches, "points": sched.points})
     conn.close()
 
 
@@ -200,7 +229,12 @@ def main() -> int:
         if i % 5 == 0:   # the residue / first-lookup witnesses of C11 in different threads
             plan[0] = [("decompile", "D-abort-residue")] + plan[0][:1]
             plan[1] = [("decompile", rng.choice(["D-switch-first-lookup", "D-switch-first-lookup-2"]))] + plan[1][:1]
-        plans.append((plan, rng.randrange(1 << 30), "sched" if i < n_sched else "free"))
+        sd = rng.randrange(1 << 30)
+        if i % 5 == 1:   # the same kind of block open in several threads at once (per-decompiler state of the writer: loop and switch handler stacks)
+            fam = rng.choice([["D-forever", "D-forever-2"], ["D-switch", "D-nested", "D-X2"], ["D-forever", "D-forever"], ["D-loop", "D-forever-2", "D-W"]])
+            plan = [[("decompile", fam[t % len(fam)])] * rng.choice([1, 2]) for t in range(nt)]
+            sd |= 1      # with function-call yield points
+        plans.append((plan, sd, "sched" if i < n_sched else "free"))
     runs = pmap(run_plan, plans, limit=120.0, chunk=1)
     cases, meta = [], []
     stuck = 0
@@ -248,7 +282,8 @@ def main() -> int:
     rep.traces = len(cases)
     rep.evaluations = len(plans)
     rep.nontrivial = sum(1 for _, r in meta if r["switches"] >= 1)
-    rep.rule = (f"{n_sched} deterministic schedules (one runnable thread at a time; yield points at every cache-lock acquisition, lexer token and parser prediction; "
+    rep.rule = (f"{n_sched} deterministic schedules (one runnable thread at a time; yield points at every cache-lock acquisition, lexer token and parser prediction, and in "
+                "every second schedule at every call of a function of the package; "
                 f"seeded choice, every third schedule bounded to 2 preemptions) and {n_free} free-running runs (switch interval 1e-6) of 2-3 threads x 1-3 "
                 "compile/decompile calls under the lowest-free id allocator; every call's digest is compared with its solo digest and the interleaved cache events "
                 "are validated by TLC against ProcessState.tla; non-trivial = run with >=1 context switch at a yield point")
